@@ -23,6 +23,7 @@ import (
 	"strconv"
 	"strings"
 	"sync"
+	"sync/atomic"
 	"time"
 
 	pb "github.com/NethermindEth/juno/consensus/propeller/proto"
@@ -59,7 +60,9 @@ type hctx struct {
 	cfg cfgFlags
 	pcfg pcfgFlags
 	// scenarios in which the real Processor diverged from the model only after a subprocessor ended
-	postFinalization []map[string]any
+	postFinalization []*procScenario
+	// the re-run of such a scenario is in progress: a divergence now is not queued again
+	rerunning bool
 	// driverBroken is set after the first driver failure: the sections keep running their
 	// oracles on the real code, without correspondence.
 	driverBroken bool
@@ -204,7 +207,7 @@ func main() {
 	h.cfg = probeVariant(h)
 	res.Note("code variant probed on the real code (model driven with the same flags): %+v", h.cfg)
 	h.pcfg.WireGuard = probeWire()
-	h.pcfg.ProcWired, h.pcfg.NoPoison, h.pcfg.LocalFromPresent = probeProcessor(h)
+	probeProcessor(h)
 	res.Note("wire/processor variant probed: %s", h.pcfg.describe())
 
 	if f.Replay != "" {
@@ -226,6 +229,7 @@ func main() {
 		timings += fmt.Sprintf(" %s=%.1fs", sec.name, time.Since(t0).Seconds())
 	}
 	res.Note("section wall times:%s", timings)
+	res.HitN("compare:error-text-not-recognised(accept/reject only)", int(errOtherHits.Load()))
 	ex := false
 	res.Exhaustive = &ex
 	lib.Finish(f, res)
@@ -346,10 +350,15 @@ func sameVerdict(model, impl string) bool {
 		return true
 	}
 	if impl == "err:other" && strings.HasPrefix(model, "err:") {
+		errOtherHits.Add(1)
 		return true
 	}
 	return false
 }
+
+// errOtherHits counts comparisons in which the real error text was not recognised (only
+// accept/reject was compared); shown in the distribution.
+var errOtherHits atomic.Int64
 
 func firstWord(s string) string {
 	if i := strings.IndexByte(s, ' '); i >= 0 {
